@@ -242,20 +242,108 @@ theorem setNonce_account (c : Chain) (a : Bytes) (n : Nat) :
   rw [ha] at h
   rw [h]
 
-theorem nonce_bumped (c c' : Chain) (k : Checked) (hm : k.tx.memo = rlpV2Memo)
-    (h : applyChecked c k = .ok c') : (c'.account k.sender).nonce = k.tx.nonce + 1 := by
-  unfold applyChecked at h
-  split at h
-  · simp at h
-  · simp only at h
-    split at h
-    · simp at h
-    · split at h
-      · simp at h
+theorem find_map_other (l : List Account) (acc : Account) (a : Bytes) (hb : (acc.addr == a) = false) :
+    (l.map fun x => if (x.addr == acc.addr) = true then acc else x).find? (fun x => x.addr == a) =
+      l.find? (fun x => x.addr == a) := by
+  induction l with
+  | nil => rfl
+  | cons y ys ih =>
+    by_cases hy : (y.addr == acc.addr) = true
+    · have hya : (y.addr == a) = false := by
+        have : y.addr = acc.addr := by simpa using hy
+        rw [this]; exact hb
+      rw [List.map_cons, if_pos hy, List.find?_cons, List.find?_cons, hb, hya]
+      exact ih
+    · rw [List.map_cons, if_neg hy, List.find?_cons, List.find?_cons, ih]
+
+theorem account_setAccount_other (c : Chain) (acc : Account) (a : Bytes) (h : acc.addr ≠ a) :
+    (c.setAccount acc).account a = c.account a := by
+  have hb : (acc.addr == a) = false := by simpa using h
+  unfold Chain.setAccount Chain.account
+  split
+  · show ((c.accounts.map fun x => if (x.addr == acc.addr) = true then acc else x).find? (fun x => x.addr == a)).getD _ = _
+    rw [find_map_other c.accounts acc a hb]
+  · show ((c.accounts ++ [acc]).find? (fun x => x.addr == a)).getD _ = _
+    rw [List.find?_append, List.find?_cons, hb, List.find?_nil, Option.or_none]
+
+/-- rewriting the balance of one account leaves every nonce as it was -/
+theorem setBalance_nonce (c : Chain) (b : Bytes) (v : Nat) (a : Bytes) :
+    ((c.setAccount { c.account b with balance := v }).account a).nonce = (c.account a).nonce := by
+  by_cases h : b = a
+  · subst h
+    have hs := account_setAccount_same c { c.account b with balance := v }
+    have ha : ({ c.account b with balance := v } : Account).addr = b := account_addr c b
+    rw [ha] at hs
+    rw [hs]
+  · rw [account_setAccount_other c _ a (by rw [show ({ c.account b with balance := v } : Account).addr = b from account_addr c b]; exact h)]
+
+theorem noteVesting_account (c : Chain) (s : SendC) (a : Bytes) : (c.noteVesting s).account a = c.account a := by
+  unfold Chain.noteVesting
+  split <;> rfl
+
+/-- **the nonce floor is written by one thing only**: after a successful execution every account's
+nonce is what it was, except the sender's of an RLP.V2 transaction, which becomes that transaction's
+nonce + 1. Receiving a send — plain or with a vesting schedule — never changes a nonce. -/
+theorem transfer_nonce (c c' : Chain) (k : Checked) (h : applyTransfer c k = .ok c') (a : Bytes) :
+    (c'.account a).nonce =
+      if k.tx.memo = rlpV2Memo ∧ k.sender = a then k.tx.nonce + 1 else (c.account a).nonce := by
+  unfold applyTransfer at h
+  by_cases h1 : (c.account k.sender).balance < k.tx.fee
+  · simp [h1] at h
+  · simp only [h1, if_false] at h
+    generalize hc1 : c.setAccount { c.account k.sender with balance := (c.account k.sender).balance - k.tx.fee } = c1 at h
+    by_cases h2 : (c1.account k.send.fromAddr).balance < k.send.amount
+    · simp [h2] at h
+    · simp only [h2, if_false] at h
+      generalize hc2 : c1.setAccount { c1.account k.send.fromAddr with balance := (c1.account k.send.fromAddr).balance - k.send.amount } = c2 at h
+      generalize hc3 : c2.setAccount { c2.account k.send.toAddr with balance := (c2.account k.send.toAddr).balance + k.send.amount } = c3 at h
+      have n3 : (c3.account a).nonce = (c.account a).nonce := by
+        rw [← hc3, setBalance_nonce, ← hc2, setBalance_nonce, ← hc1, setBalance_nonce]
+      by_cases hm : k.tx.memo = rlpV2Memo
       · have hmb : (k.tx.memo == rlpV2Memo) = true := by simp [hm]
         simp only [hmb, if_true, Except.ok.injEq] at h
         subst h
-        exact setNonce_account _ _ _
+        by_cases hs : k.sender = a
+        · subst hs
+          simp only [hm, true_and, if_true]
+          exact setNonce_account _ _ _
+        · simp only [hm, hs, and_false, if_false]
+          rw [account_setAccount_other c3 _ a (by
+            rw [show ({ c3.account k.sender with nonce := k.tx.nonce + 1 } : Account).addr = k.sender from account_addr c3 k.sender]
+            exact hs)]
+          exact n3
+      · have hmb : (k.tx.memo == rlpV2Memo) = false := by simp [hm]
+        simp only [hmb, Bool.false_eq_true, if_false, Except.ok.injEq] at h
+        subst h
+        simp only [hm, false_and, if_false]
+        exact n3
+
+/-- **the nonce floor is written by one thing only**: after a successful execution every account's
+nonce is what it was, except the sender's of an RLP.V2 transaction, which becomes that transaction's
+nonce + 1. Receiving a send — plain or with a vesting schedule — never changes a nonce. -/
+theorem nonce_after (c c' : Chain) (k : Checked) (h : applyChecked c k = .ok c') (a : Bytes) :
+    (c'.account a).nonce =
+      if k.tx.memo = rlpV2Memo ∧ k.sender = a then k.tx.nonce + 1 else (c.account a).nonce := by
+  unfold applyChecked at h
+  split at h
+  · simp at h
+  · split at h
+    · simp at h
+    · rw [transfer_nonce _ c' k h a, noteVesting_account]
+
+theorem nonce_bumped (c c' : Chain) (k : Checked) (hm : k.tx.memo = rlpV2Memo)
+    (h : applyChecked c k = .ok c') : (c'.account k.sender).nonce = k.tx.nonce + 1 := by
+  rw [nonce_after c c' k h k.sender]
+  simp [hm]
+
+/-- the floor never goes down: with the acceptance condition `floor ≤ nonce` of an RLP.V2 transaction -/
+theorem nonce_monotone (c c' : Chain) (k : Checked) (h : applyChecked c k = .ok c')
+    (hf : k.tx.memo = rlpV2Memo → (c.account k.sender).nonce ≤ k.tx.nonce) (a : Bytes) :
+    (c.account a).nonce ≤ (c'.account a).nonce := by
+  rw [nonce_after c c' k h a]
+  split
+  · next hc => obtain ⟨hm, rfl⟩ := hc; have := hf hm; omega
+  · exact Nat.le_refl _
 
 /-! ## the replay property, as a statement about the model -/
 
